@@ -1,1 +1,5 @@
 //! Offline checkers over recorded histories (DESIGN 3.2, Appendix B).
+
+pub mod lease;
+pub mod order;
+pub mod wgl;
